@@ -2,7 +2,9 @@ package checks
 
 import (
 	"fmt"
+	"go/constant"
 	"os"
+	"os/exec"
 	"path/filepath"
 	"sort"
 	"sync"
@@ -71,6 +73,20 @@ func init() {
 				for _, ins := range b.Instrs {
 					c, ok := ins.(*ssa.Call)
 					if !ok {
+						continue
+					}
+					if bi, ok := c.Call.Value.(*ssa.Builtin); ok && bi.Name() == "println" && len(c.Call.Args) == 4 {
+						// probe of a bare program: println("P", id, "<type>", v)
+						if k, ok := c.Call.Args[1].(*ssa.Const); ok && k.Value != nil {
+							if id64, ok := constant.Int64Val(k.Value); ok {
+								id := int(id64)
+								v := c.Call.Args[3]
+								probed[id] = v
+								pos := l.Prog.Fset.Position(c.Pos())
+								probeLine[id] = pos.Line
+								res.Desc[id] = fmt.Sprintf("%s (%T) at main.go:%d", v.Name(), v, pos.Line)
+							}
+						}
 						continue
 					}
 					cal := c.Call.StaticCallee()
@@ -208,24 +224,71 @@ func C11(tier string) {
 	}
 	var mu sync.Mutex
 	pairsTotal, birthsTotal, checked, indsTotal := 0, 0, 0, 0
-	core.Parallel(nProgs, 6, func(pi int) {
+	nBare := nProgs / 2
+	core.Parallel(nProgs+nBare, 6, func(pi int) {
 		r := core.NewRNG(run.SeedV, fmt.Sprintf("c11-%s-%d", tier, pi))
-		files, births, inds := gen.RenderHeapProgram2(r, nFuncs, nSteps)
+		bare := pi >= nProgs
+		var files map[string]string
+		var births, inds map[int]bool
 		dir := filepath.Join(run.Scratch, fmt.Sprintf("heap%02d", pi))
-		if err := gen.WriteProgram(dir, files); err != nil {
-			run.Inconclusive(err.Error())
-			return
+		if bare {
+			// println-only programs whose maps, channels and slices all have named types and that contain no
+			// interface-typed operand: the tracked kinds must be derived from the named types alone
+			files, births = gen.RenderBareProgram(r, nFuncs, nSteps)
+			for name, content := range files {
+				_ = os.MkdirAll(dir, 0o755)
+				if err := os.WriteFile(filepath.Join(dir, name), []byte(content), 0o644); err != nil {
+					run.Inconclusive(err.Error())
+					return
+				}
+			}
+		} else {
+			files, births, inds = gen.RenderHeapProgram2(r, nFuncs, nSteps)
+			if err := gen.WriteProgram(dir, files); err != nil {
+				run.Inconclusive(err.Error())
+				return
+			}
 		}
-		bin, err := gen.BuildNative(dir)
+		var bin string
+		var err error
+		if !bare {
+			bin, err = gen.BuildNative(dir)
+		} else {
+			bin, err = gen.BuildNative(dir, "-ldflags", "-X main.bits=000000")
+		}
 		if err != nil {
 			run.Inconclusive("generator produced a program that does not build: " + tailStr(err.Error(), 800))
 			return
+		}
+		replayFiles := files
+		if !bare {
+			replayFiles = withRT(files)
 		}
 		pairSet := map[[2]int]bool{}
 		birthSet := map[[2]int]bool{}
 		indSet := map[[2]int]bool{}
 		for in := 0; in < 64; in++ {
-			evs, err := gen.RunNative(bin, fmt.Sprintf("%06b", in), "", filepath.Join(dir, "events.log"), "GOGC=off")
+			var evs []gen.Event
+			var err error
+			if bare {
+				// the input is linked in; 8 of the 64 inputs are used
+				if in%9 != 0 {
+					continue
+				}
+				if in != 0 {
+					if bin, err = gen.BuildNative(dir, "-ldflags", "-X main.bits="+fmt.Sprintf("%06b", in)); err != nil {
+						run.Inconclusive("relink failed: " + tailStr(err.Error(), 300))
+						return
+					}
+				}
+				cmd := exec.Command(bin)
+				cmd.Env = append(os.Environ(), "GOGC=off")
+				var out []byte
+				out, err = cmd.CombinedOutput()
+				evs = gen.ParseBareEvents(string(out))
+			} else {
+				evs, err = gen.RunNative(bin, fmt.Sprintf("%06b", in), "", filepath.Join(dir, "events.log"), "GOGC=off")
+			}
 			if err != nil {
 				run.Inconclusive("native run failed: " + tailStr(err.Error(), 300))
 				return
@@ -288,7 +351,7 @@ func C11(tier string) {
 		if cr.Status != "ok" || core.ReadJSON(job.Out, &res) != nil || res.Err != "" {
 			data, _ := os.ReadFile(cr.LogFile)
 			if cr.Status == "panic" {
-				run.Violation("analyzer-panic", "pointer analysis crashed: "+tailStr(string(data), 3000), withRT(files))
+				run.Violation("analyzer-panic", "pointer analysis crashed: "+tailStr(string(data), 3000), replayFiles)
 			} else {
 				run.Inconclusive("alias worker " + cr.Status + " " + res.Err)
 			}
@@ -309,24 +372,24 @@ func C11(tier string) {
 			if run.IsKnown(sig) {
 				continue
 			}
-			run.Violation(fmt.Sprintf("%s:%d:%d-%d", sig, pi, p[0], p[1]), fmt.Sprintf("probes %d [%s] and %d [%s] observed the same object in one execution, but MayAlias of their points-to sets is false", p[0], res.Desc[p[0]], p[1], res.Desc[p[1]]), withRT(files))
+			run.Violation(fmt.Sprintf("%s:%d:%d-%d", sig, pi, p[0], p[1]), fmt.Sprintf("probes %d [%s] and %d [%s] observed the same object in one execution, but MayAlias of their points-to sets is false", p[0], res.Desc[p[0]], p[1], res.Desc[p[1]]), replayFiles)
 		}
 		for _, p := range res.IndNotAlias {
-			run.Violation(fmt.Sprintf("indirect-not-may-alias:%d:%d-%d", pi, p[0], p[1]), fmt.Sprintf("indirect probe %d [%s] held, at run time, the object that probe %d [%s] observed, but the indirect points-to set of the former does not intersect the points-to set of the latter", p[0], res.Desc[p[0]], p[1], res.Desc[p[1]]), withRT(files))
+			run.Violation(fmt.Sprintf("indirect-not-may-alias:%d:%d-%d", pi, p[0], p[1]), fmt.Sprintf("indirect probe %d [%s] held, at run time, the object that probe %d [%s] observed, but the indirect points-to set of the former does not intersect the points-to set of the latter", p[0], res.Desc[p[0]], p[1], res.Desc[p[1]]), replayFiles)
 		}
 		for _, p := range res.InnerNotAlias {
-			run.Violation(fmt.Sprintf("accessor-value-not-may-alias:%d:%d-%d", pi, p[0], p[1]), fmt.Sprintf("the value returned inside the accessor called for indirect probe %d [%s] was, at run time, the probed pointer, which held the object that probe %d [%s] observed; the accessor value's canonical points-to sets (merged over calling contexts) do not intersect the observed one", p[0], res.Desc[p[0]], p[1], res.Desc[p[1]]), withRT(files))
+			run.Violation(fmt.Sprintf("accessor-value-not-may-alias:%d:%d-%d", pi, p[0], p[1]), fmt.Sprintf("the value returned inside the accessor called for indirect probe %d [%s] was, at run time, the probed pointer, which held the object that probe %d [%s] observed; the accessor value's canonical points-to sets (merged over calling contexts) do not intersect the observed one", p[0], res.Desc[p[0]], p[1], res.Desc[p[1]]), replayFiles)
 		}
 		if res.InnerNoQuery > 0 {
-			run.Violation(fmt.Sprintf("accessor-value-no-query:%d", pi), "the pointer returned inside the accessor has no (indirect) query although it is an operand of pointer-to-pointer type in a user function", withRT(files))
+			run.Violation(fmt.Sprintf("accessor-value-no-query:%d", pi), "the pointer returned inside the accessor has no (indirect) query although it is an operand of pointer-to-pointer type in a user function", replayFiles)
 		}
 		for _, p := range res.MissingLabel {
-			run.Violation(fmt.Sprintf("missing-alloc-label:%d:%d-%d", pi, p[0], p[1]), fmt.Sprintf("probe %d [%s] observed the object allocated at probe %d [%s], but that allocation site is not in its points-to set", p[0], res.Desc[p[0]], p[1], res.Desc[p[1]]), withRT(files))
+			run.Violation(fmt.Sprintf("missing-alloc-label:%d:%d-%d", pi, p[0], p[1]), fmt.Sprintf("probe %d [%s] observed the object allocated at probe %d [%s], but that allocation site is not in its points-to set", p[0], res.Desc[p[0]], p[1], res.Desc[p[1]]), replayFiles)
 		}
 		if len(res.NoQuery) > 0 {
 			sig := "no-query"
 			if !run.IsKnown(sig) {
-				run.Violation(sig, fmt.Sprintf("%d probed pointer-like values of user functions have no pointer query registered, e.g. probe %d [%s]", len(res.NoQuery), res.NoQuery[0], res.Desc[res.NoQuery[0]]), withRT(files))
+				run.Violation(sig, fmt.Sprintf("%d probed pointer-like values of user functions have no pointer query registered, e.g. probe %d [%s]", len(res.NoQuery), res.NoQuery[0], res.Desc[res.NoQuery[0]]), replayFiles)
 			}
 		}
 		if pi == 0 && len(job.Pairs) > 0 {
@@ -335,6 +398,7 @@ func C11(tier string) {
 		}
 	})
 	run.Cov["programs"] = nProgs
+	run.Cov["println-only_programs_with_named_map/chan/slice_types_and_no_interface_operand"] = nBare
 	run.Cov["observed_alias_pairs"] = pairsTotal
 	run.Cov["observed_(value,allocation_site)_pairs"] = birthsTotal
 	run.Cov["observed_(pointer-to-pointer,pointee)_pairs"] = indsTotal
